@@ -1,9 +1,15 @@
 ---- MODULE TraceTrieKV ----
 (* C17, code side.  Every line is one call of the REAL trie API (store/trie over store.TrieDatabase over
-   BeansDB) plus what the real code exposes afterwards: root hash, TryGet of every key, node paths.
+   BeansDB) on one of the live trie handles, plus what the real code exposes afterwards for EVERY live handle
+   ("obs") and for a snapshot of the handle operated on - a copy of the Go object taken just before the call -
+   ("pre"): root hash, TryGet of every key, node paths.  kv maps the live handles to their abstract contents;
+   an operation changes the content of the handle it names and of no other.
    A line is consumed only if
-     * the call did not fail and every read equals the abstract content (reads return the last write;
-       Hash / Get / Commit / Reopen / ProveAll do not change it; a reopened root has the committed content),
+     * the call did not fail and every read of every live handle equals that handle's own abstract content (reads
+       return the last write THROUGH THAT HANDLE; Hash / Get / Commit / Reopen / ProveAll / Copy / Open do not change
+       any; a reopened root has the committed content; what is done through one handle never shows in another),
+     * the snapshot taken before the call still shows the content the handle had before the call, with its root
+       and node paths (an operation never edits nodes an older version of the trie still consists of),
      * the real root is THE root of that content: TLC registers 3 / 4 remember, over all behaviours of the
        whole run (all insertion / deletion orders, commits, cache limits, reopen modes that reach the same
        content), which root every content had and which content every root had - a content with two
@@ -36,13 +42,25 @@ RootRule(kd, c, root) ==
   /\ (root \in DOMAIN co => co[root] = id)            \* the same root never has two contents
   /\ IF id \in DOMAIN ro THEN TRUE ELSE TLCSet(3, (id :> root) @@ ro)
   /\ IF root \in DOMAIN co THEN TRUE ELSE TLCSet(4, (root :> id) @@ co)
-\* what every event must show when the content is c (kd, ks, pa: kind, key order and key paths of this behaviour)
-Obs(kd, ks, pa, c) ==
+\* what one observed trie object (o: root, reads, node paths) must show when its content is c
+\* (kd, ks, pa: kind, key order and key paths of this behaviour)
+ObsOne(kd, ks, pa, c, o) ==
+  /\ Len(o.reads) = Len(ks) /\ \A i \in 1..Len(ks) : o.reads[i] = c[ks[i]]      \* TryGet of every key
+  /\ "itererr" \notin DOMAIN o
+  /\ ToSet(o.shape) = ShapeOf(pa, c)
+  /\ RootRule(kd, c, o.root)
+\* what every event must show when the contents of the live handles are m (a function handle -> content):
+\* EVERY live handle - the one operated on and all the others - shows its own content
+\* "= TRUE": evaluated as one boolean (TLC would otherwise branch on every disjunction inside)
+Obs(kd, ks, pa, m) ==
   /\ E.err = ""
-  /\ Len(E.reads) = Len(ks) /\ \A i \in 1..Len(ks) : E.reads[i] = c[ks[i]]      \* TryGet of every key
-  /\ "itererr" \notin DOMAIN E
-  /\ ToSet(E.shape) = ShapeOf(pa, c)
-  /\ RootRule(kd, c, E.root)
+  /\ Len(E.obs) = Cardinality(DOMAIN m) /\ {E.obs[i].h : i \in 1..Len(E.obs)} = DOMAIN m
+  /\ (\A i \in 1..Len(E.obs) : ObsOne(kd, ks, pa, m[E.obs[i].h], E.obs[i])) = TRUE
+\* the snapshot (a copy of handle h taken just before the call, observed after it) still shows the content h had
+Pre(h) == /\ "pre" \in DOMAIN E /\ E.pre.h = h /\ h \in DOMAIN kv
+          /\ ObsOne(kind, keys, path, kv[h], E.pre) = TRUE
+RootOf(h) == E.obs[CHOOSE i \in 1..Len(E.obs) : E.obs[i].h = h].root
+Drop1(m, h) == [g \in DOMAIN m \ {h} |-> m[g]]
 
 TReset == /\ Ev("reset")
           /\ kind' = E.kind /\ keys' = E.keys
@@ -51,38 +69,55 @@ TReset == /\ Ev("reset")
              THEN /\ \A k \in DOMAIN E.paths \cap DOMAIN reg[E.kind] : reg[E.kind][k] = E.paths[k]
                   /\ TLCSet(5, [reg EXCEPT ![E.kind] = E.paths @@ reg[E.kind]])
              ELSE TLCSet(5, (E.kind :> E.paths) @@ reg)
-          /\ kv' = [k \in ToSet(E.keys) |-> NONE] /\ avail' = {} /\ disk' = {}
-          /\ Obs(E.kind, E.keys, E.paths, [k \in ToSet(E.keys) |-> NONE])
+          /\ kv' = [h \in {E.obs[i].h : i \in 1..Len(E.obs)} |-> [k \in ToSet(E.keys) |-> NONE]]
+          /\ avail' = {} /\ disk' = {}
+          /\ Obs(E.kind, E.keys, E.paths, kv')
 Same == UNCHANGED <<kind, keys, avail, disk>>
-TPut == /\ Ev("Put") /\ kv' = PutKV(kv, E.a[1], E.a[2]) /\ Obs(kind, keys, path, PutKV(kv, E.a[1], E.a[2])) /\ Same
-TRemove == /\ Ev("Remove") /\ kv' = DelKV(kv, E.a[1]) /\ Obs(kind, keys, path, DelKV(kv, E.a[1])) /\ Same
-TGet == /\ Ev("Get") /\ E.val = kv[E.a[1]] /\ Obs(kind, keys, path, kv) /\ UNCHANGED kv /\ Same
-THash == /\ Ev("Hash") /\ E.ret = E.root /\ Obs(kind, keys, path, kv) /\ UNCHANGED kv /\ Same
-TCommit == /\ Ev("Commit") /\ E.ret = E.root /\ Obs(kind, keys, path, kv)
-           /\ avail' = avail \cup {kv} /\ disk' = IF E.a[1] THEN disk \cup {kv} ELSE disk
+\* a[1] is the handle; the other live handles keep their contents
+TPut == /\ Ev("Put") /\ Pre(E.a[1])
+        /\ kv' = [kv EXCEPT ![E.a[1]] = PutKV(kv[E.a[1]], E.a[2], E.a[3])] /\ Obs(kind, keys, path, kv') /\ Same
+TRemove == /\ Ev("Remove") /\ Pre(E.a[1])
+           /\ kv' = [kv EXCEPT ![E.a[1]] = DelKV(kv[E.a[1]], E.a[2])] /\ Obs(kind, keys, path, kv') /\ Same
+TGet == /\ Ev("Get") /\ Pre(E.a[1]) /\ E.val = kv[E.a[1]][E.a[2]] /\ Obs(kind, keys, path, kv) /\ UNCHANGED kv /\ Same
+THash == /\ Ev("Hash") /\ Pre(E.a[1]) /\ E.ret = RootOf(E.a[1]) /\ Obs(kind, keys, path, kv) /\ UNCHANGED kv /\ Same
+TCommit == /\ Ev("Commit") /\ Pre(E.a[1]) /\ E.ret = RootOf(E.a[1]) /\ Obs(kind, keys, path, kv)
+           /\ avail' = avail \cup {kv[E.a[1]]} /\ disk' = IF E.a[2] THEN disk \cup {kv[E.a[1]]} ELSE disk
            /\ UNCHANGED <<kind, keys, kv>>
 TReopen == /\ Ev("Reopen")
-           /\ LET mode == E.a[2]  c == E.c IN
-              /\ IF mode = "same" THEN c \in avail ELSE c \in disk
-              /\ kv' = c /\ Obs(kind, keys, path, c)
-              /\ E.from = E.root                                   \* opened by the root Commit returned for c
+           /\ LET h == E.a[1]  mode == E.a[3]  c == E.c IN
+              /\ h \in DOMAIN kv
+              /\ IF mode = "same" THEN c \in avail /\ Pre(h) ELSE c \in disk
+              \* a new TrieDatabase is the end of all other handles
+              /\ kv' = IF mode = "same" THEN [kv EXCEPT ![h] = c] ELSE (h :> c)
+              /\ Obs(kind, keys, path, kv')
+              /\ E.from = RootOf(h)                                \* opened by the root Commit returned for c
               /\ avail' = IF mode = "same" THEN avail ELSE disk   \* a new TrieDatabase has an empty node cache
            /\ UNCHANGED <<kind, keys, disk>>
-ProofOK(p) ==
-  /\ IF Expected(kv, p.k) # NONE THEN ~p.refused /\ p.val = kv[p.k]      \* present keys verify
-     ELSE ProofAnswerOK(kv, p.k, p.refused, p.val)                       \* absent keys: absent or refused
-  /\ \A j \in 1..Len(p.t) : ProofAnswerOK(kv, p.k, p.t[j].refused, p.t[j].val)   \* no node set forges another answer
-TProve == /\ Ev("ProveAll") /\ kv \in avail
-          /\ DOMAIN kv \subseteq {E.proofs[i].k : i \in 1..Len(E.proofs)}
-          \* "= TRUE": evaluated as one boolean (TLC would otherwise branch on every disjunction inside)
-          /\ (\A i \in 1..Len(E.proofs) : ProofOK(E.proofs[i])) = TRUE
+ProofOK(c, p) ==
+  /\ IF Expected(c, p.k) # NONE THEN ~p.refused /\ p.val = c[p.k]        \* present keys verify
+     ELSE ProofAnswerOK(c, p.k, p.refused, p.val)                        \* absent keys: absent or refused
+  /\ \A j \in 1..Len(p.t) : ProofAnswerOK(c, p.k, p.t[j].refused, p.t[j].val)    \* no node set forges another answer
+TProve == /\ Ev("ProveAll") /\ Pre(E.a[1]) /\ kv[E.a[1]] \in avail
+          /\ DOMAIN kv[E.a[1]] \subseteq {E.proofs[i].k : i \in 1..Len(E.proofs)}
+          /\ (\A i \in 1..Len(E.proofs) : ProofOK(kv[E.a[1]], E.proofs[i])) = TRUE
           /\ Obs(kind, keys, path, kv) /\ UNCHANGED kv /\ Same
+\* ---- more handles: a copy, a second trie from the same or an older committed root, dropping one
+TCopy == /\ Ev("Copy") /\ Pre(E.a[1]) /\ E.a[2] \notin DOMAIN kv
+         /\ kv' = (E.a[2] :> kv[E.a[1]]) @@ kv /\ Obs(kind, keys, path, kv') /\ Same
+TOpen == /\ Ev("Open") /\ Pre(E.a[2]) /\ E.a[1] \notin DOMAIN kv
+         /\ kv[E.a[2]] \in avail /\ E.c = kv[E.a[2]]
+         /\ kv' = (E.a[1] :> E.c) @@ kv /\ Obs(kind, keys, path, kv') /\ E.from = RootOf(E.a[1]) /\ Same
+TOpenOld == /\ Ev("OpenOld") /\ E.a[1] \notin DOMAIN kv /\ E.c \in avail
+            /\ kv' = (E.a[1] :> E.c) @@ kv /\ Obs(kind, keys, path, kv') /\ E.from = RootOf(E.a[1]) /\ Same
+TClose == /\ Ev("Close") /\ E.a[1] \in DOMAIN kv
+          /\ kv' = Drop1(kv, E.a[1]) /\ Obs(kind, keys, path, kv') /\ Same
 \* A run too large for one TLC process is validated in chunks; every chunk's accepted <<kind, reads, root>>
 \* observations are restated as "rootobs" lines and validated together, so that the root rule spans all chunks.
 TRootObs == /\ Ev("rootobs")
             /\ RootRule(E.kind, [k \in ToSet(E.keys) |-> E.reads[CHOOSE i \in 1..Len(E.keys) : E.keys[i] = k]], E.root)
             /\ UNCHANGED <<kind, keys, kv, avail, disk>>
 TraceNext == TRootObs \/ TReset \/ TPut \/ TRemove \/ TGet \/ THash \/ TCommit \/ TReopen \/ TProve
+             \/ TCopy \/ TOpen \/ TOpenOld \/ TClose
 TraceSpec == /\ l = 1 /\ kind = "" /\ keys = <<>> /\ kv = <<>> /\ avail = {} /\ disk = {}
              /\ [][TraceNext]_tvars
 ====
